@@ -13,7 +13,7 @@ Definition names_ok (o : op) : bool :=
   let ok (n : str) := Nat.leb 3 (List.length n) in
   match o with
   | OCreateTable ct => ok (ct_table ct)
-  | OAddTable t _ _ | ODeleteTable t | OPut t _ _ _ _ | OGet t _ _ _ | OUpdate t _ _ _ _ _ _ | ODelete t _ _ _ _ _ => ok t
+  | OAddTable t _ _ | ODeleteTable t | OPut t _ _ _ _ _ | OGet t _ _ _ | OUpdate t _ _ _ _ _ _ | ODelete t _ _ _ _ _ => ok t
   | OAddIndex t i _ _ => ok t && ok i
   | OUpdateTable t _ create _ => ok t && match create with Some d => ok (id_name d) | None => true end
   | OBatchWrite reqs => forallb (fun tr => ok (fst tr)) reqs
@@ -28,10 +28,10 @@ Lemma preamble_flav c tn names vals exprs :
   Nat.leb 3 (List.length tn) = true -> preamble V1 c tn names vals exprs = preamble V2 c tn names vals exprs.
 Proof. intros H. unfold preamble, v1_name_ok. now rewrite H. Qed.
 
-Lemma put_item_flav c tn it cond names vals :
+Lemma put_item_flav c tn it cond names vals ro :
   Nat.leb 3 (List.length tn) = true ->
-  fst (put_item lm V1 c tn it cond names vals) = fst (put_item lm V2 c tn it cond names vals) /\
-  o_res (snd (put_item lm V1 c tn it cond names vals)) = o_res (snd (put_item lm V2 c tn it cond names vals)).
+  fst (put_item lm V1 c tn it cond names vals ro) = fst (put_item lm V2 c tn it cond names vals ro) /\
+  o_res (snd (put_item lm V1 c tn it cond names vals ro)) = o_res (snd (put_item lm V2 c tn it cond names vals ro)).
 Proof.
   intros H. unfold put_item. rewrite (preamble_flav _ _ _ _ _ H).
   destruct (preamble V2 c tn names vals _); [auto|].
@@ -68,15 +68,15 @@ Lemma batch_one_flav c tn r :
    end).
 Proof.
   intros H. right. unfold batch_write_one. destruct r.
-  - destruct (put_item_flav c tn i None [] [] H) as [E1 E2].
-    destruct (put_item lm V1 c tn i None [] []) as [c1 o1], (put_item lm V2 c tn i None [] []) as [c2 o2]; cbn in *.
+  - destruct (put_item_flav c tn i None [] [] false H) as [E1 E2].
+    destruct (put_item lm V1 c tn i None [] [] false) as [c1 o1], (put_item lm V2 c tn i None [] [] false) as [c2 o2]; cbn in *.
     destruct (o_res o1) as [|[]| |] eqn:R1; rewrite <- E2; cbn; rewrite ?R1; auto.
   - destruct (delete_item_flav c tn k None [] [] false H) as [E1 E2].
     destruct (delete_item lm V1 c tn k None [] [] false) as [c1 o1], (delete_item lm V2 c tn k None [] [] false) as [c2 o2]; cbn in *.
     destruct (o_res o1) as [|[]| |] eqn:R1; rewrite <- E2; cbn; rewrite ?R1; auto.
-  - cbn. auto.
-  - destruct (put_item_flav c tn i None [] [] H) as [E1 E2].
-    destruct (put_item lm V1 c tn i None [] []) as [c1 o1], (put_item lm V2 c tn i None [] []) as [c2 o2]; cbn in *.
+  - cbn. destruct (c_failure c) as [f|]; cbn; auto. destruct f; cbn; auto.
+  - destruct (put_item_flav c tn i None [] [] false H) as [E1 E2].
+    destruct (put_item lm V1 c tn i None [] [] false) as [c1 o1], (put_item lm V2 c tn i None [] [] false) as [c2 o2]; cbn in *.
     destruct (o_res o1) as [|[]| |] eqn:R1; rewrite <- E2; cbn; rewrite ?R1; auto.
 Qed.
 
@@ -122,9 +122,11 @@ Lemma run_search_state f c t q : fst (run_search lm f c t q) = c /\ True.
 Proof.
   split; auto. unfold run_search. destruct (q_index q) as [n|].
   - destruct (negb (mem n (t_indexes t)) && negb match n with [] => true | _ => false end); cbn; auto.
+    destruct (negb (valid_start_key _ _ _)); cbn; auto.
     destruct (check_expressions _ _ _) as [u| | |]; cbn; auto.
     destruct (search_data _ _ _ _) as [[[items lek] fi]| | |]; cbn; auto.
-  - destruct (check_expressions _ _ _) as [u| | |]; cbn; auto.
+  - destruct (negb (valid_start_key _ _ _)); cbn; auto.
+    destruct (check_expressions _ _ _) as [u| | |]; cbn; auto.
     destruct (search_data _ _ _ _) as [[[items lek] fi]| | |]; cbn; auto.
 Qed.
 
@@ -132,9 +134,11 @@ Lemma run_search_res c t q : o_res (snd (run_search lm V1 c t q)) = o_res (snd (
 Proof.
   unfold run_search. destruct (q_index q) as [n|].
   - destruct (negb (mem n (t_indexes t)) && negb match n with [] => true | _ => false end); cbn; auto.
+    destruct (negb (valid_start_key _ _ _)); cbn; auto.
     destruct (check_expressions _ _ _) as [u| | |]; cbn; auto.
     destruct (search_data _ _ _ _) as [[[items lek] fi]| | |]; cbn; auto.
-  - destruct (check_expressions _ _ _) as [u| | |]; cbn; auto.
+  - destruct (negb (valid_start_key _ _ _)); cbn; auto.
+    destruct (check_expressions _ _ _) as [u| | |]; cbn; auto.
     destruct (search_data _ _ _ _) as [[[items lek] fi]| | |]; cbn; auto.
 Qed.
 
@@ -170,8 +174,8 @@ Proof.
        q_keycond := []; q_filter := opt_str filter; q_cond := None; q_forward := true; q_scan := true |}) as [-> _].
     destruct (run_search_state V2 c t {| q_index := index; q_values := vals; q_names := names; q_limit := limit; q_esk := esk;
        q_keycond := []; q_filter := opt_str filter; q_cond := None; q_forward := true; q_scan := true |}) as [-> _]. reflexivity.
-  - unfold batch_write. destruct (negb (forallb wreq_ok (flat_map snd reqs))); auto.
-    destruct (batch_limit <? List.length (flat_map snd reqs)); auto.
+  - unfold batch_write. destruct (_ && negb (forallb wreq_ok (flat_map snd reqs))); auto.
+    destruct (_ && (batch_limit <? List.length (flat_map snd reqs))); auto.
     destruct (match c_failure c with Some _ => [] | None => flat_map (prevalidate_table c) reqs end); auto.
     destruct (batch_tables_flav reqs c [] Hn) as [E1 E2].
     destruct (batch_write_tables lm V1 c reqs []) as [[c1 u1] x1], (batch_write_tables lm V2 c reqs []) as [[c2 u2] x2]; cbn in *.
